@@ -133,6 +133,11 @@ Definition w3c_traceparent (s : bytes) : bool :=
   | _ => false
   end.
 
+(** The W3C grammar forbids version ff ("version ff is invalid"): a header that
+    starts with it is malformed whatever follows, so extraction must ignore it. *)
+Definition forbidden_version (tp : bytes) : bool :=
+  match tp with a :: b :: _ => (a =? 102) && (b =? 102) | _ => false end.
+
 (** Fields of a conforming traceparent. *)
 Definition tp_trace_id (s : bytes) : bytes := firstn 32 (skipn 3 s).
 Definition tp_span_id (s : bytes) : bytes := firstn 16 (skipn 36 s).
